@@ -197,78 +197,7 @@ def run(ctx):
         ok = bool(enc_i) and bool(send_i) and enc_i[0] < send_i[0]
     ctx.ob(R2, rq.qual, "str chunks are UTF-8 encoded before being measured and sent", ok)
 
-    # ------------------------------------------------------------------ R6 length is measured on what is sent
-    R6 = ctx.rule("C11-R6", "body_to_chunks: per body kind, a non-None content_length is len()/nbytes of the very object placed in chunks (after str->bytes), 0 for no body with a body-expecting method, None otherwise / for one-shot sources", "E4 provenance")
-    btc = m.func(f"{RQ}.body_to_chunks")
-
-    class BRule(BaseRule):
-        def call(self, it, st, node, recv, pos, kw):
-            t = ast.unparse(node.func)
-            if t == "to_bytes":
-                return [Out("normal", st, AV("unk", tags=frozenset(pos[0].tags | {"to_bytes"}), none=False))]
-            if t == "len":
-                a = node.args[0]
-                return [Out("normal", st, AV("unk", tags=frozenset({"len:" + ast.unparse(a)}), none=False))]
-            if t == "hasattr":
-                return [Out("normal", st, AV("unk", sym="has:" + ast.unparse(node.args[1])))]
-            if t == "memoryview":
-                return [Out("normal", st, AV("obj", "mv", truth=True, none=False, tags=frozenset({"mv:" + ast.unparse(node.args[0])}))), Out("raise", st.copy(), exc("builtins.TypeError"))]
-            if t == "iter":
-                return [Out("normal", st, AV("unk", tags=frozenset({"iter:" + ast.unparse(node.args[0])}), none=False)), Out("raise", st.copy(), exc("builtins.TypeError"))]
-            if t == "chunk_readable":
-                return [Out("normal", st, AV("unk", tags=frozenset({"generator-over-read"}), none=False))]
-            if t == "ChunksAndContentLength":
-                s = st.copy()
-                s.ts["result"] = (kw.get("chunks", pos[0] if pos else UNK), kw.get("content_length", pos[1] if len(pos) > 1 else UNK))
-                return [Out("normal", s, AV("obj", "result", truth=True, none=False))]
-            if t == "method.upper":
-                return [Out("normal", st, AV("unk", sym="METHOD"))]
-            q = it.resolve_callee(node, recv)
-            if q and it.m.is_exception_class(q):
-                return [Out("normal", st, AV("exc", it.m.norm(q), truth=True, none=False))]
-            return [Out("normal", st, UNK)]
-
-        def getattr(self, it, st, node, base):
-            if base.kind == "obj" and base.val == "mv" and node.attr == "nbytes":
-                return AV("unk", tags=frozenset({"nbytes-of:" + ",".join(sorted(base.tags))}), none=False)
-            return None
-
-    outs, it = run_function(m, btc, BRule(), record_decisions=True)
-    seen = set()
-    for o in outs:
-        if o.kind != "return" or "result" not in o.st.ts:
-            continue
-        ch, cl = o.st.ts["result"]
-        ch, cl = o.st.view(ch), o.st.view(cl)
-        body_none = o.st.facts.get("p:body", (None, None))[1]
-        strb = o.st.ts.get(("isinst", "p:body", ("builtins.str", "builtins.bytes")))
-        has_read = o.st.facts.get("has:'read'", (None, None))[0]
-        nobody_m = o.st.ts.get(("cmp", "METHOD", "in", "_METHODS_NOT_EXPECTING_BODY")) if False else None
-        key = (body_none, strb, has_read, ch.val if ch.kind == "const" else tuple(sorted(ch.tags)) or ch.kind, cl.val if cl.kind == "const" else tuple(sorted(cl.tags)) or "?")
-        if key in seen:
-            continue
-        seen.add(key)
-        if body_none is True:
-            ok = ch.kind == "const" and ch.val is None and cl.kind == "const" and cl.val in (0, None)
-            what = "no body: chunks None, length 0 or None"
-        elif strb is True:
-            ok = ch.kind == "tuple" and len(ch.val) == 1 and "to_bytes" in ch.val[0].tags and any(t.startswith("len:chunks[0]") for t in cl.tags)
-            what = "str/bytes: one chunk of bytes, length = len of that chunk"
-        elif has_read is True:
-            ok = "generator-over-read" in ch.tags and cl.kind == "const" and cl.val is None
-            what = "file-like: generator over read(), length unknown"
-        elif ch.kind == "tuple":
-            ok = len(ch.val) == 1 and "entry" not in "" and any(t.startswith("nbytes-of:mv:body") for t in cl.tags)
-            what = "buffer: the object itself, length = memoryview(body).nbytes"
-        else:
-            ok = any(t.startswith("iter:body") for t in ch.tags) and cl.kind == "const" and cl.val is None
-            what = "iterable: iter(body), length unknown"
-        ctx.ob(R6, btc.qual, f"{what}", ok, "" if ok else f"chunks={key[3]} content_length={key[4]}: the declared length is not measured on what is sent", witness=o.st.witness(), node=btc.node)
-    ctx.sites(R6, len(seen), 5, "body kinds of body_to_chunks")
-    # method gate for the no-body case
-    txt = astq.text(btc.node)
-    ctx.ob(R6, btc.qual, "no body: Content-Length 0 unless the (upper-cased) method expects no body", "if method.upper() not in _METHODS_NOT_EXPECTING_BODY:\n            content_length = 0\n        else:\n            content_length = None" in txt)
-    ctx.ob(R6, btc.qual, "text-mode files are UTF-8 encoded block by block", "datablock = datablock.encode('utf-8')" in txt.replace('"', "'") and "encode = isinstance(body, io.TextIOBase)" in txt)
+    rule_r6(ctx)
 
     # ------------------------------------------------------------------ R3 position threading
     R3 = ctx.rule("C11-R3", "every resend passes on the body it sent (None only after 303) and the position recorded by set_file_position before the first attempt", "E6 sibling cross-check")
@@ -369,12 +298,20 @@ def run(ctx):
     # set_file_position
     outs, it = run_function(m, sfp, RW(), record_decisions=True)
     n = 0
+    seen_ret = set()
     for o in outs:
         pos_none = o.st.facts.get("p:pos", (None, None))[1]
         if pos_none is False and o.kind != "raise":
             n += 1
+            v = o.st.view(o.val) if o.val is not None else None
+            keeps = v is not None and v.sym == "p:pos"
+            key = (bool(o.st.ts.get("rewind_called")), keeps)
+            if key in seen_ret:
+                continue
+            seen_ret.add(key)
             ctx.ob(R4, sfp.qual, "a given position => rewind_body is called", bool(o.st.ts.get("rewind_called")), witness=o.st.witness(), node=sfp.node)
-            break
+            ctx.ob(R4, sfp.qual, "a given position is handed back unchanged (so the next resend rewinds to the same place)", keeps,
+                   "" if keeps else "after the first rewind the recorded start position is forgotten: a second resend records the end of the file as its start and sends an empty body", witness=o.st.witness(), node=sfp.node)
     for o in outs:
         if o.kind == "return" and o.st.facts.get("p:pos", (None, None))[1] is True and o.st.facts.get("attr:'tell'", (None, None))[1] is False:
             v = o.st.view(o.val)
@@ -400,3 +337,81 @@ def run(ctx):
            "" if covers_read_without_tell else f"only `{gate_txt}` records a position: a file-like body without tell() yields None, is consumed by the first attempt and re-sent empty on retry instead of raising UnrewindableBodyError", node=sfp.node)
     ctx.ob(R5, sfp.qual, "iterator/generator body gets the failed marker", covers_iterables,
            "" if covers_iterables else "an iterator/generator body yields position None: after a retry/307 the exhausted iterator is re-sent as an empty body instead of raising UnrewindableBodyError", node=sfp.node)
+
+
+def rule_r6(ctx):
+    """C11-R6 (shared with C10): the declared length is measured on the very object that is sent."""
+    m, fold = ctx.model, ctx.fold
+    # ------------------------------------------------------------------ R6 length is measured on what is sent
+    R6 = ctx.rule("C11-R6", "body_to_chunks: per body kind, a non-None content_length is len()/nbytes of the very object placed in chunks (after str->bytes), 0 for no body with a body-expecting method, None otherwise / for one-shot sources", "E4 provenance")
+    btc = m.func(f"{RQ}.body_to_chunks")
+
+    class BRule(BaseRule):
+        def call(self, it, st, node, recv, pos, kw):
+            t = ast.unparse(node.func)
+            if t == "to_bytes":
+                return [Out("normal", st, AV("unk", tags=frozenset(pos[0].tags | {"to_bytes"}), none=False))]
+            if t == "len":
+                a = node.args[0]
+                return [Out("normal", st, AV("unk", tags=frozenset({"len:" + ast.unparse(a)}), none=False))]
+            if t == "hasattr":
+                return [Out("normal", st, AV("unk", sym="has:" + ast.unparse(node.args[1])))]
+            if t == "memoryview":
+                return [Out("normal", st, AV("obj", "mv", truth=True, none=False, tags=frozenset({"mv:" + ast.unparse(node.args[0])}))), Out("raise", st.copy(), exc("builtins.TypeError"))]
+            if t == "iter":
+                return [Out("normal", st, AV("unk", tags=frozenset({"iter:" + ast.unparse(node.args[0])}), none=False)), Out("raise", st.copy(), exc("builtins.TypeError"))]
+            if t == "chunk_readable":
+                return [Out("normal", st, AV("unk", tags=frozenset({"generator-over-read"}), none=False))]
+            if t == "ChunksAndContentLength":
+                s = st.copy()
+                s.ts["result"] = (kw.get("chunks", pos[0] if pos else UNK), kw.get("content_length", pos[1] if len(pos) > 1 else UNK))
+                return [Out("normal", s, AV("obj", "result", truth=True, none=False))]
+            if t == "method.upper":
+                return [Out("normal", st, AV("unk", sym="METHOD"))]
+            q = it.resolve_callee(node, recv)
+            if q and it.m.is_exception_class(q):
+                return [Out("normal", st, AV("exc", it.m.norm(q), truth=True, none=False))]
+            return [Out("normal", st, UNK)]
+
+        def getattr(self, it, st, node, base):
+            if base.kind == "obj" and base.val == "mv" and node.attr == "nbytes":
+                return AV("unk", tags=frozenset({"nbytes-of:" + ",".join(sorted(base.tags))}), none=False)
+            return None
+
+    outs, it = run_function(m, btc, BRule(), record_decisions=True)
+    seen = set()
+    for o in outs:
+        if o.kind != "return" or "result" not in o.st.ts:
+            continue
+        ch, cl = o.st.ts["result"]
+        ch, cl = o.st.view(ch), o.st.view(cl)
+        body_none = o.st.facts.get("p:body", (None, None))[1]
+        strb = o.st.ts.get(("isinst", "p:body", ("builtins.str", "builtins.bytes")))
+        has_read = o.st.facts.get("has:'read'", (None, None))[0]
+        nobody_m = o.st.ts.get(("cmp", "METHOD", "in", "_METHODS_NOT_EXPECTING_BODY")) if False else None
+        key = (body_none, strb, has_read, ch.val if ch.kind == "const" else tuple(sorted(ch.tags)) or ch.kind, cl.val if cl.kind == "const" else tuple(sorted(cl.tags)) or "?")
+        if key in seen:
+            continue
+        seen.add(key)
+        if body_none is True:
+            ok = ch.kind == "const" and ch.val is None and cl.kind == "const" and cl.val in (0, None)
+            what = "no body: chunks None, length 0 or None"
+        elif strb is True:
+            ok = ch.kind == "tuple" and len(ch.val) == 1 and "to_bytes" in ch.val[0].tags and any(t.startswith("len:chunks[0]") for t in cl.tags)
+            what = "str/bytes: one chunk of bytes, length = len of that chunk"
+        elif has_read is True:
+            ok = "generator-over-read" in ch.tags and cl.kind == "const" and cl.val is None
+            what = "file-like: generator over read(), length unknown"
+        elif ch.kind == "tuple":
+            ok = len(ch.val) == 1 and "entry" not in "" and any(t.startswith("nbytes-of:mv:body") for t in cl.tags)
+            what = "buffer: the object itself, length = memoryview(body).nbytes"
+        else:
+            ok = any(t.startswith("iter:body") for t in ch.tags) and cl.kind == "const" and cl.val is None
+            what = "iterable: iter(body), length unknown"
+        ctx.ob(R6, btc.qual, f"{what}", ok, "" if ok else f"chunks={key[3]} content_length={key[4]}: the declared length is not measured on what is sent", witness=o.st.witness(), node=btc.node)
+    ctx.sites(R6, len(seen), 5, "body kinds of body_to_chunks")
+    # method gate for the no-body case
+    txt = astq.text(btc.node)
+    ctx.ob(R6, btc.qual, "no body: Content-Length 0 unless the (upper-cased) method expects no body", "if method.upper() not in _METHODS_NOT_EXPECTING_BODY:\n            content_length = 0\n        else:\n            content_length = None" in txt)
+    ctx.ob(R6, btc.qual, "text-mode files are UTF-8 encoded block by block", "datablock = datablock.encode('utf-8')" in txt.replace('"', "'") and "encode = isinstance(body, io.TextIOBase)" in txt)
+
